@@ -113,7 +113,21 @@ pub fn gen_value(rng: &mut impl Rng) -> SqliteValue {
             rng,
             &[0i64, 1, -1, 255, 256, 65535, 65536, i32::MAX as i64, i32::MIN as i64, 1 << 40, i64::MAX, i64::MIN, -(1 << 56)],
         )),
-        2 => SqliteValue::Integer(rng.random()),
+        2 => SqliteValue::Integer(match rng.random_range(0..3) {
+            // every byte width and every power-of-two boundary, both signs
+            0 => {
+                let k = rng.random_range(0..64u32);
+                let base = if k == 63 { i64::MIN } else { 1i64 << k };
+                base.wrapping_add(rng.random_range(-1..=1)).wrapping_mul(if rng.random_range(0..2) == 0 { 1 } else { -1 })
+            }
+            1 => {
+                let w = rng.random_range(1..=8u32);
+                let v: u64 = rng.random::<u64>() >> (64 - 8 * w);
+                let v = v | (1u64 << (8 * w - 1)); // top bit of the top byte set
+                (v as i64).wrapping_mul(if rng.random_range(0..2) == 0 { 1 } else { -1 })
+            }
+            _ => rng.random(),
+        }),
         3 => SqliteValue::Real(Real(*pick(
             rng,
             &[0.0f64, -0.0, 1.5, f64::INFINITY, f64::NEG_INFINITY, f64::NAN, f64::MIN_POSITIVE, f64::MAX],
